@@ -83,7 +83,14 @@ fn main() {
                 println!("re-run: mmverif overshoot (the whole family takes well under a second)");
                 let out = seqx::overshoot();
                 println!("{out}");
-                if out.contains("\"viol_total\":0") { vec![] } else { vec![common::Violation { prop: "C04", sig: "overshoot".into(), detail: out, witness: w.to_string() }] }
+                let mut v = Vec::new();
+                for sig in ["S:overshoot-beyond-write-queue", "S:resident-weight-above-capacity:after-burst"] {
+                    if out.contains(sig) {
+                        println!("      VIOLATED C04 [{sig}]: see the JSON line above");
+                        v.push(common::Violation { prop: "C04", sig: sig.into(), detail: String::new(), witness: w.to_string() });
+                    }
+                }
+                v
             } else if w.starts_with("schedx|") {
                 schedx::replay(w)
             } else if w.starts_with("dequex|") {
